@@ -201,8 +201,16 @@ def body_values(case, ctx):
     _classify(ctx, case["pts"], th, ph)
     ctx.nt(l_max >= 2 and bool(np.any(np.abs(np.sin(ph)) > 1e-3)))
     ref = sph.real_sph_harm_ld(l_max, th, ph)
-    a = np.asarray(y_rec(l_max, th.copy(), ph.copy()), dtype=float)
-    b = np.asarray(y_sci(l_max, th.copy(), ph.copy()), dtype=float)
+    # both implementations are called through angle arrays that held OTHER angles in an earlier call with the same
+    # l_max and were re-filled in place: the result belongs to the angles, not to the array objects
+    tbuf, pbuf = th[::-1] * 0.5 + 0.1, np.abs(ph[::-1] - 0.3) % math.pi
+    y_rec(l_max, tbuf, pbuf)
+    y_sci(l_max, tbuf, pbuf)
+    tbuf[...] = th
+    pbuf[...] = ph
+    a = np.asarray(y_rec(l_max, tbuf, pbuf), dtype=float)
+    b = np.asarray(y_sci(l_max, tbuf, pbuf), dtype=float)
+    ctx.check(np.array_equal(tbuf, th) and np.array_equal(pbuf, ph), "angle-arrays-modified", "an implementation changed its angle arrays in place")
     unit = _unit_values(l_max, th)
     unit_d = _unit_values(l_max, th, ph)
     _cmp(ctx, a, ref, unit, C_VAL, "recursive-vs-definition", f"generate_real_spherical_harmonics(l_max={l_max})")
